@@ -142,6 +142,8 @@ struct World {
     /// a block arrived before its parent while the node is in its not-loaded regime: from here
     /// on the chain state is in the condition recorded as a known finding of C03 / C05
     tainted: bool,
+    /// a block with a placeholder standing for millions of transactions was handed to this node
+    placeholder_bomb_sent: bool,
     /// a node in spv mode: ghost chains are legitimate input for it; only the crash / stall /
     /// allocation oracles apply
     spv: bool,
@@ -213,6 +215,7 @@ impl World {
             hostile_classes: BTreeSet::new(),
             allow_parentless: loaded || rng.below(2) == 0,
             tainted: false,
+            placeholder_bomb_sent: false,
             spv,
             settled: true,
             offered: BTreeMap::new(),
@@ -324,7 +327,7 @@ impl World {
         }
         if r.is_ok() && peak > ALLOC_BOUND {
             rep.violation(
-                &format!("C11|clause=allocation-bound|handler={}", input.handler()),
+                &format!("C11|clause=allocation-bound|handler={}{}", input.handler(), if self.placeholder_bomb_sent { "|cause=placeholder-replacement-count-in-fetched-block" } else { "" }),
                 &format!("handler {} allocated {} bytes for an input of {} bytes", input.handler(), peak, match input { Input::Msg { bytes, .. } | Input::Fetched { bytes, .. } => bytes.len(), _ => 0 }),
                 self.witness(),
             );
@@ -468,7 +471,7 @@ impl World {
         };
         let attacker = self.all[2].clone();
         let mut must_reject = false;
-        let (label, msg): (String, Message) = match rng.below(17) {
+        let (label, msg): (String, Message) = match rng.below(19) {
             0 => {
                 let hb = self.future[rng.below(self.future.len() as u64) as usize];
                 ("block-message".into(), Message::Block(self.env.b.store.get(&hb).block.clone()))
@@ -588,6 +591,49 @@ impl World {
                 }
                 (format!("loose-producer-transaction[{:?}]", t), Message::Transaction(tx))
             }
+            16 => {
+                // signatures whose r or s is not a scalar of the curve (the group order itself, all
+                // ones, zero): they do not decode as signatures at all
+                const N: [u8; 32] = [0xFF, 0xFF, 0xFF, 0xFF, 0xFF, 0xFF, 0xFF, 0xFF, 0xFF, 0xFF, 0xFF, 0xFF, 0xFF, 0xFF, 0xFF, 0xFE, 0xBA, 0xAE, 0xDC, 0xE6, 0xAF, 0x48, 0xA0, 0x3B, 0xBF, 0xD2, 0x5E, 0x8C, 0xD0, 0x36, 0x41, 0x41];
+                let mut tx = build_tx(&attacker, &[], &[(attacker.pk, 0)], T0 + 25, &rbytes(rng, &[0usize, 7]));
+                let half = rng.below(2) as usize * 32;
+                let v = rng.below(3);
+                let val: [u8; 32] = match v {
+                    0 => N,
+                    1 => [0xFF; 32],
+                    _ => [0; 32],
+                };
+                tx.signature[half..half + 32].copy_from_slice(&val);
+                must_reject = true;
+                self.rejected_tx_sigs.insert(tx.signature.to_vec());
+                (format!("transaction-with-out-of-range-signature[{}={}]", if half == 0 { "r" } else { "s" }, ["n", "ones", "zero"][v as usize]), Message::Transaction(tx))
+            }
+            17 => {
+                // shaped like an NFT transfer on the input side (bound, normal, bound), with too
+                // few outputs
+                use saito_core::core::consensus::slip::SlipType;
+                let mut tx = build_tx(&attacker, &[], &[], T0 + 26, &[]);
+                tx.from.clear();
+                tx.to.clear();
+                for (i, t) in [SlipType::Bound, SlipType::Normal, SlipType::Bound].iter().enumerate() {
+                    let mut sl = out_slip(&attacker.pk, [1u64, 500, 0][i]);
+                    sl.slip_type = *t;
+                    sl.block_id = 1;
+                    sl.slip_index = i as u8;
+                    tx.add_from_slip(sl);
+                }
+                let outs = 1 + rng.below(3) as usize;
+                for i in 0..outs {
+                    let mut sl = out_slip(&attacker.pk, [1u64, 400, 0][i]);
+                    if i != 1 {
+                        sl.slip_type = SlipType::Bound;
+                    }
+                    tx.add_to_slip(sl);
+                }
+                tx.transaction_type = TransactionType::Bound;
+                tx.sign(&attacker.sk);
+                (format!("nft-shaped-transaction[{}-outputs]", outs), Message::Transaction(tx))
+            }
             _ => {
                 let mut tx = build_tx(&attacker, &[], &[], T0 + 30, &rbytes(rng, &[0usize, 10, 100_000]));
                 if rng.below(2) == 0 {
@@ -702,8 +748,10 @@ impl World {
                 let s = self.env.b.store.get(&n);
                 let mut blk = Block::deserialize_from_net(&s.bytes).unwrap();
                 let creator = self.env.b.creator().clone();
-                let m = rng.below(8);
+                // (the last variant costs about a minute of CPU per use - the tree is hashed on all cores -: once per node, in one node of 120)
+                let m = if !self.placeholder_bomb_sent && rng.below(120) == 0 { 8 } else { rng.below(8) };
                 let ntx = blk.transactions.len();
+                let mut skip_reseal = false;
                 let name = match m {
                     0 => {
                         if let Some(t) = blk.transactions.iter_mut().find(|t| t.transaction_type == TransactionType::GoldenTicket) {
@@ -749,12 +797,26 @@ impl World {
                         }
                         "all-outputs-maximal"
                     }
-                    _ => {
+                    7 => {
                         blk.transactions.reverse();
                         "transactions-reversed"
                     }
+                    _ => {
+                        // a placeholder that claims to stand for millions of transactions, in a block
+                        // whose merkle root is left for the receiver to compute
+                        let mut ph = saito_core::core::consensus::transaction::Transaction::default();
+                        ph.transaction_type = TransactionType::SPV;
+                        ph.txs_replacements = 2_000_000;
+                        self.placeholder_bomb_sent = true;
+                        blk.transactions.push(ph);
+                        blk.merkle_root = [0; 32];
+                        skip_reseal = true;
+                        "placeholder-replacement-count"
+                    }
                 };
-                crate::props::c04::reseal(&mut blk, &creator, true);
+                if !skip_reseal {
+                    crate::props::c04::reseal(&mut blk, &creator, true);
+                }
                 (format!("tampered-block[{}]", name), blk.hash, blk.id, blk.serialize_for_net(saito_core::core::consensus::block::BlockType::Full))
             }
             (10 | 11, Some(n)) if self.allow_parentless => {
